@@ -101,13 +101,112 @@ pub fn check_text(asn: &str, use_protoc: bool, tag: u64) -> Result<&'static str,
     Ok("valid")
 }
 
-const RULE: &str = "part a: generated front-end-profile modules (proptest) -> .proto text of ProtobufDefGenerator -> independent proto3 mini-parser: syntax; unique field names and numbers per message incl. oneof members; numbers >= 1 and legal; first enum value 0; unique enum value names per package; referenced messages / enums exist; no `repeated repeated`; no `repeated` inside oneof; protoc as second opinion on a sample when /usr/bin/protoc exists. Non-trivial: the file has >= 2 definitions or a oneof / enum / repeated field; distinct = text hash.";
+// ---------------------------------------------------------------------------------------------
+// several modules: types imported from another module (package-qualified names, import lines)
+
+/// (library module, user module): the user imports every type of the library and uses each one as
+/// plain / OPTIONAL component, as element of SEQUENCE OF / SET OF, as CHOICE alternative and
+/// inside an inline SEQUENCE
+pub fn import_pair(lib_name: &str, user_name: &str) -> (Module, Module) {
+    let c = |name: &str, ty: Type, presence: Presence| Comp { name: name.to_string(), tag: None, ty, presence };
+    let small = || Type::int(0, 255);
+    let lib_defs = vec![
+        Def { name: "Point".into(), tag: None, ty: Type::Sequence(Fields { comps: vec![c("x", small(), Presence::Mandatory), c("y", small(), Presence::Mandatory)], root: None }) },
+        Def { name: "Kind".into(), tag: None, ty: Type::Enumerated { items: vec![("walk".into(), None), ("ride".into(), None)], root: None } },
+        Def { name: "Ident".into(), tag: None, ty: small() },
+        Def { name: "Label".into(), tag: None, ty: Type::Str { cs: Charset::Utf8, size: None } },
+        Def { name: "Shape".into(), tag: None, ty: Type::Choice { alts: vec![Alt { name: "dot".into(), tag: None, ty: Type::Boolean }, Alt { name: "num".into(), tag: None, ty: small() }], root: None } },
+    ];
+    let names: Vec<String> = lib_defs.iter().map(|d| d.name.clone()).collect();
+    let lib = Module::simple(lib_name, lib_defs);
+    let r = |n: &str| Type::Ref(n.to_string());
+    let mut user_defs = Vec::new();
+    for (k, n) in names.iter().enumerate() {
+        user_defs.push(Def {
+            name: format!("Uses{k}"),
+            tag: None,
+            ty: Type::Sequence(Fields {
+                comps: vec![
+                    c("plain", r(n), Presence::Mandatory),
+                    c("maybe", r(n), Presence::Optional),
+                    c("many", Type::SequenceOf { elem: Box::new(r(n)), size: None }, Presence::Mandatory),
+                    c("bag", Type::SetOf { elem: Box::new(r(n)), size: Some(Size::range(0, Some(3), false)) }, Presence::Mandatory),
+                    c("which", Type::Choice { alts: vec![Alt { name: "it".into(), tag: None, ty: r(n) }, Alt { name: "none".into(), tag: None, ty: Type::Null }], root: None }, Presence::Mandatory),
+                    c("inner", Type::Sequence(Fields { comps: vec![c("deep", r(n), Presence::Mandatory)], root: None }), Presence::Mandatory),
+                ],
+                root: None,
+            }),
+        });
+        user_defs.push(Def { name: format!("Alias{k}"), tag: None, ty: r(n) });
+        user_defs.push(Def { name: format!("List{k}"), tag: None, ty: Type::SequenceOf { elem: Box::new(r(n)), size: None } });
+    }
+    let mut user = Module::simple(user_name, user_defs);
+    user.imports = vec![Import { symbols: names, from: lib_name.to_string(), oid: None }];
+    (lib, user)
+}
+
+pub fn check_module_set(texts: &[String], use_protoc: bool) -> Result<&'static str, Fail> {
+    use asn1rs_model::generate::protobuf::ProtobufDefGenerator;
+    use asn1rs_model::generate::Generator;
+    use asn1rs_model::protobuf::ToProtobufModel;
+    let files = catch(|| -> Result<Vec<(String, String)>, String> {
+        let mut resolver = asn1rs_model::asn::MultiModuleResolver::default();
+        for t in texts {
+            let tokens = asn1rs_model::parse::Tokenizer::default().parse(t);
+            resolver.push(asn1rs_model::Model::try_from(tokens).map_err(|e| format!("parse: {e}"))?);
+        }
+        let models = resolver.try_resolve_all().map_err(|e| format!("resolve: {e}"))?;
+        let scope = models.iter().collect::<Vec<_>>();
+        let mut g = ProtobufDefGenerator::default();
+        for m in &models {
+            g.add_model(m.to_rust_with_scope(&scope[..]).to_protobuf());
+        }
+        g.to_string().map_err(|e| format!("generator: {e:?}"))
+    });
+    let files = match files {
+        Err(p) => return Err(("set:generator-panic".into(), format!("generating the .proto files of {} modules panicked: {p}", texts.len()))),
+        Ok(Err(e)) if e.starts_with("parse") || e.starts_with("resolve") => return Ok("rejected-by-front-end"),
+        Ok(Err(e)) => return Err(("set:generator-error".into(), e)),
+        Ok(Ok(f)) => f,
+    };
+    let all = files.iter().map(|(n, c)| format!("// ---- {n}\n{c}")).collect::<Vec<_>>().join("\n");
+    let mut parsed = Vec::new();
+    for (name, content) in &files {
+        parsed.push((name.clone(), proto::parse(content).map_err(|e| ("set:proto-syntax".to_string(), format!("{name} is not valid proto3 syntax: {e}\n{all}")))?));
+    }
+    let errs = proto::validate_set(&parsed);
+    if let Some(first) = errs.first() {
+        let class = if first.contains("not defined in the file") { "unresolvable-type" } else if first.contains("without importing") { "missing-import" } else { "other" };
+        return Err((format!("set:proto-invalid:{class}"), format!("the generated .proto files are not valid together: {}\n{all}", errs.join("; "))));
+    }
+    if use_protoc && std::path::Path::new("/usr/bin/protoc").exists() {
+        let dir = std::env::temp_dir().join(format!("verif-c18-set-{}-{}", std::process::id(), hash_of(&all)));
+        let _ = std::fs::create_dir_all(&dir);
+        for (name, content) in &files {
+            let _ = std::fs::write(dir.join(name), content);
+        }
+        let out = std::process::Command::new("/usr/bin/protoc").arg(format!("--proto_path={}", dir.display())).arg("-o/dev/null").args(files.iter().map(|(n, _)| n.clone())).output();
+        let _ = std::fs::remove_dir_all(&dir);
+        if let Ok(out) = out {
+            if !out.status.success() {
+                return Err(("set:protoc-rejects".into(), format!("protoc rejects the generated files although the mini-parser accepts them: {}\n{all}", String::from_utf8_lossy(&out.stderr).lines().next().unwrap_or(""))));
+            }
+        }
+    }
+    Ok("valid-set")
+}
+
+const RULE: &str = "part a: generated front-end-profile modules (proptest) -> .proto text of ProtobufDefGenerator -> independent proto3 mini-parser: syntax; unique field names and numbers per message incl. oneof members; numbers >= 1 and legal; first enum value 0; unique enum value names per package; referenced messages / enums exist; no `repeated repeated`; no `repeated` inside oneof; protoc as second opinion on a sample when /usr/bin/protoc exists; plus a family of module pairs in which one module imports every type kind of the other and uses it as plain / OPTIONAL component, list element, CHOICE alternative, nested and top-level alias (all files together: every non-local type is the package-qualified name of a type of an imported file). Non-trivial: the file has >= 2 definitions or a oneof / enum / repeated field; distinct = text hash.";
 
 pub fn run(ctx: Ctx) -> i32 {
     let report = Report::new(ctx.clone(), RULE);
     let replay = |c: &J| -> Result<(), Fail> {
         if c["part"].as_str() != Some("a") {
             return Ok(());
+        }
+        if let Some(texts) = c["texts"].as_array() {
+            let texts: Vec<String> = texts.iter().filter_map(|t| t.as_str().map(|s| s.to_string())).collect();
+            return check_module_set(&texts, true).map(|_| ());
         }
         check_text(c["text"].as_str().unwrap_or(""), true, 0).map(|_| ())
     };
@@ -130,6 +229,25 @@ pub fn run(ctx: Ctx) -> i32 {
         open.push("toplevel-list-of-inline-constructed");
     }
     report.run_probes(&replay);
+    if ctx.worker.is_none() {
+        // module pairs with imported types (deterministic family; module names vary the package / file names)
+        for (lib, user) in [("Shared-Types", "Track-Data"), ("Lib", "App"), ("Common_Defs", "User-Module"), ("geo", "Trip2"), ("Base-Module", "Top")] {
+            let (l, u) = import_pair(lib, user);
+            let texts = vec![module_text(&l), module_text(&u)];
+            report.eval(1);
+            match check_module_set(&texts, true) {
+                Ok(what) => {
+                    report.class(&format!("a:{what}"), 1);
+                    if what == "valid-set" {
+                        report.nontrivial(hash_of(&texts));
+                    }
+                }
+                Err((key, msg)) => {
+                    report.fail(&format!("a:{key}"), &msg, json!({"part": "a", "texts": texts}));
+                }
+            }
+        }
+    }
     let bad = run_in_workers(&report, 16, std::time::Duration::from_secs(tier.pick(600, 7200)), &|report: &Report| {
         report.ctx.my_shards(shards).par_iter().for_each(|&shard| {
             if report.too_many_violations() {
